@@ -37,20 +37,14 @@ Definition obs_eqb (a b : obs) : bool :=
   outcome_eqb oa ob && list_eqb kp_eqb pa pb && Bool.eqb ea eb && list_eqb (list_eqb val_eqb) la lb.
 Definition obsl_eqb := list_eqb obs_eqb.
 
-(* open finding classes: 14 lastIndexOf converts fromIndex before the empty-receiver exit; 15 join converts the
-   separator before it reads length (both visible only through argument objects whose valueOf/toString logs or
-   throws, 15 also needs a length getter).  A model/spec difference that the lastIndexOf switch alone explains is
-   class 14, otherwise 15; every other departure from ES5 is a violation *)
-Definition classify (init : obj) (ops : list op) (s m : list obs) : Z :=
-  if obsl_eqb (run es5_lio init ops) m then 14 else 15.
-
+(* no finding of C08 is open: every departure from ES5 is a violation (class 0) *)
 Definition verdict (c : case) : Z * Z :=
   match c with
   | CHist init ops observed =>
       let s := run es5 init ops in
       let m := run otto init ops in
       if declines s || declines m then declined
-      else judge obsl_eqb observed m s (if obsl_eqb m s then 0 else classify init ops s m)
+      else judge obsl_eqb observed m s 0
   | CSort elems cmp observed =>
       match sort_model elems cmp with
       | None => declined
